@@ -36,6 +36,7 @@ ASSUMPTIONS = [
     'numpy packbits / integer arithmetic are correct',
 ]
 REQUIRED_COUNTERS = ['objects_checked', 'objects_with_numpy_integer_sizes',
+                     'objects_judged_after_derived_attributes_were_read',
                      'history_steps_checked', 'commutation_pairs_checked',
                      'rank_computations']
 EXHAUSTIVE = True
@@ -250,11 +251,48 @@ def run_one(cls_name, size, dname, kwargs, out, beyond=False,
         out.extra['per_class'].get(cls_name, 0) + 1
 
 
+def touch(code):
+    """What constructing a simulation, a decoder or a results record reads
+    off a code object."""
+    for attr in ('label', 'id', 'params', 'n', 'k', 'd', 'is_css',
+                 'n_stabilizers', 'x_indices', 'z_indices', 'size'):
+        getattr(code, attr)
+
+
+def run_touched(cls_name, size, dname, kwargs, out):
+    """The derived attributes are read first, the object is judged, they
+    are read again and it is judged again: reading must not change it."""
+    from pv.common import panqec_frame
+    rect = 'rect' if len(set(size)) > 1 else 'cubic'
+    desc = {'cls': cls_name, 'size': list(size), 'deformation': dname,
+            'kwargs': kwargs, 'after_history': True,
+            'history': 'derived attributes read first'}
+    try:
+        code = fam.build(cls_name, size, dname, kwargs)
+        touch(code)
+        check_code(code, desc, out)
+        touch(code)
+        facts = check_code(code, dict(desc, history='derived attributes '
+                                      'read, judged, read again'), out)
+        out.count('objects_judged_after_derived_attributes_were_read')
+        out.case(desc, nontrivial=facts['m'] > 0)
+    except Exception as e:
+        where = panqec_frame(e)
+        if where is None:
+            raise
+        out.violation(f'{cls_name}/{rect}/after-history/'
+                      f'raises-{type(e).__name__}',
+                      f'{type(e).__name__}: {e} at {where}',
+                      dict(desc, where=where))
+
+
 def run_task(task, out):
     cls_name, size = task['cls'], tuple(task['size'])
     defs = fam.deformations(cls_name)
     for dname, kwargs in defs:
         run_one(cls_name, size, dname, kwargs, out, task.get('beyond_bound'))
+    for dname, kwargs in defs[:2]:
+        run_touched(cls_name, size, dname, kwargs, out)
     if fam.n_estimate(cls_name, size) <= NUMPY_SIZE_N_MAX:
         st = ['int64', 'int32'][sum(size) % 2]
         for dname, kwargs in defs[:2]:
